@@ -11,7 +11,7 @@ type string = Stdlib.String.t
 external c_set_mmap_mode : int -> unit = "vp_set_mmap_mode"
 
 let engine = "c19"
-let rule = "file contents: valid v2 tables from the real writer and v1/v2 tables from the independent encoder, then (a) every single-field mutation of the trailer's index offset to boundary values (0, around file size - 512 - {13,16}, 2^32, 2^63, 2^64 - k for k up to 600) and of either magic, (b) the index block's length prefix replaced by huge / overlong / truncated encodings in both format versions, (c) truncation to every length in sampled ranges, (d) random bytes and random byte flips in trailer and index header; each with and without verify_checksums and in both guard-page placements. Non-trivial: content differs from the valid base; distinct by content hash."
+let rule = "file contents: valid v2 tables from the real writer and v1/v2 tables from the independent encoder, then (a) every single-field mutation of the trailer's index offset to boundary values (0, around file size - 512 - {13,16}, 2^32, 2^63, 2^64 - k for k up to 600) and of either magic, (b) the index block's length prefix replaced by huge / overlong / truncated encodings in both format versions, (c) truncation to every length in sampled ranges, (c') files of 525..532 bytes whose index block starts with a 9- or 10-byte length varint, (d) random bytes and random byte flips in trailer and index header; each with and without verify_checksums and in both guard-page placements. Non-trivial: content differs from the valid base; distinct by content hash."
 
 let sigsegv_like s = (s = Sys.sigsegv || s = Sys.sigbus)
 
@@ -139,6 +139,23 @@ let run ~tier ~seed ~only acc =
         incr idx)
         [ 0L; 1L; 12L; 13L; 16L; Int64.of_int (n - 512); Int64.of_int n; Int64.of_int (n + 1); Int64.of_int (n + 100); 4000L;
           0x100000000L; Int64.min_int; -1L; -13L; -16L; -512L; -525L; -528L ])
+      [ ("v2", 0x4D54424CL); ("v1", 0x77846676L) ]
+  done;
+  (* tiny files whose index block begins with a LONG length prefix (9 and 10 byte varints, overlong encodings of small
+     numbers included): the header then is longer than the 13 bytes the offset check reserves *)
+  for n = 525 to 532 do
+    List.iter (fun (mname, magic) ->
+      List.iter (fun off ->
+        List.iter (fun pre ->
+          if want () then begin
+            let body = splice (String.make n '\000') off pre in
+            let s = set_le (set_le body (n - 4) 4 magic) (n - 512) 8 (Int64.of_int off) in
+            check acc ~klass:"tiny_file_long_prefix" s (lazy (JO [ "file_len", JI n; "magic", JS mname; "index_block_offset", JI off; "length_prefix", JS (hex pre) ]))
+          end;
+          incr idx)
+          [ "\xd8\x84\x80\x80\x80\x80\x80\x80\x80\x00"; "\xff\xff\xff\xff\xff\xff\xff\xff\xff\x01"; "\x80\x80\x80\x80\x80\x80\x80\x80\x40";
+            "\xff\xff\xff\xff\xff\xff\xff\xff\x7f"; "\x85\x80\x80\x80\x80\x80\x80\x80\x80\x00"; "\xff\xff\xff\xff\xff\xff\xff\xff\xff\x00" ])
+        (List.filter (fun o -> o >= 0) [ 0; 1; n - 512 - 13; n - 512 - 14; n - 512 - 15 ]))
       [ ("v2", 0x4D54424CL); ("v1", 0x77846676L) ]
   done;
   (* random bytes *)
